@@ -59,7 +59,7 @@ theorem C10_text_parse (gap : Nat → Gap) (cs : Nat → List Bool) (toks : List
     parseSQL (renderText gap cs toks) = parseTokens toks :=
   parseSQL_renderText gap cs toks htoks hlay
 
-/-- **C10.keyword_case_insensitive**: a word (letters, digits, `_`; ASCII or not) whose upper-casing
+/-- **C10.keyword_case_insensitive**: a word (letters, digits, `_`; ASCII or not) whose ASCII upper-casing
 (`strings.ToUpper`) is the spelling of a keyword scans to that keyword's token, whatever the case of its
 letters; its text is the word as typed. -/
 theorem C10_keyword_case_insensitive (rs : Input) (codes : List Nat) (k : Int) (hk : (codes, k) ∈ kwTable)
@@ -207,13 +207,14 @@ example : layoutOK (fun _ => []) (fun _ => []) 0 [⟨t_SELECT, []⟩, ⟨t_IDENT
     layoutOK (fun _ => []) (fun _ => []) 0 [⟨t_LT, []⟩, ⟨t_EQ, []⟩] = false ∧
     layoutOK (fun _ => []) (fun _ => []) 0 [⟨t_INT, [49]⟩, ⟨t_ELSE, []⟩] = false := by decide
 
-/-- keywords: `sElEcT` is SELECT; `ſelect` with the long s U+017F, whose `ToUpper` is `S`, is SELECT too;
-`selects` is an identifier -/
+/-- keywords: `sElEcT` is SELECT; `ſelect` with the long s U+017F - whose Unicode `ToUpper` is `S` - is an
+IDENTIFIER (only ASCII letters are folded when a word is looked up as a keyword: repair 3984b79; before
+it this word was the keyword SELECT and `lımıt`, `ſet` were LIMIT and SET); `selects` is an identifier -/
 example : scanSQL (asciiText "sElEcT") = .ok [⟨t_SELECT, [115, 69, 108, 69, 99, 84]⟩] :=
   C10_keyword_case_insensitive _ (strCodes "SELECT") _ (by decide) (by decide) (by decide)
 example : scanSQL ((⟨0x17F, [0xC5, 0xBF], true, false, 83⟩ : Rune) :: asciiText "elect") =
-    .ok [⟨t_SELECT, [0xC5, 0xBF, 101, 108, 101, 99, 116]⟩] :=
-  C10_keyword_case_insensitive _ (strCodes "SELECT") _ (by decide) (by decide) (by decide)
+    .ok [⟨t_IDENT, [0xC5, 0xBF, 101, 108, 101, 99, 116]⟩] :=
+  (C10_keyword_vs_identifier _ (by decide)).1 (by decide)
 example : scanSQL (asciiText "selects") = .ok [⟨t_IDENT, [115, 101, 108, 101, 99, 116, 115]⟩] :=
   (C10_keyword_vs_identifier _ (by decide)).1 (by decide)
 example : scanSQL (asciiText "Int") = .ok [⟨t_T_INT, [73, 110, 116]⟩] :=
